@@ -145,7 +145,7 @@ def case_maxprinciple(dim, field_type, beta_src):
                 fails.append(Fail(f"{tag}:ring-changed", "diffusion step changes a boundary-ring cell", cell=cells[k], component=c))
                 break
     offdiag = sum(1 for i in range(M.shape[0]) for j in range(M.shape[1]) if i != j and M[i, j] != 0)
-    if offdiag == 0:
+    if offdiag == 0 and not fails:
         from harness.interp import HarnessError
 
         raise HarnessError("C16 max principle vacuous")
